@@ -34,6 +34,15 @@ def evaluate(case):
     from bycycle.features import compute_features
     kw = S.call_kwargs(o)
     kw['return_samples'] = True          # ONE set of option objects, reused for every call of this case (as a user would)
+    if o['burst_method'] == 'amp' and sum(map(ord, w)) % 2 == 0:
+        # 'fs' / 'f_range' are documented keys of the burst options (for compute_burst_features); left in a re-used dictionary they
+        # are stale at every other rate - compute_features' own arguments decide
+        kw['burst_kwargs'] = dict(kw['burst_kwargs'], **({'fs': o['fs']} if sum(map(ord, w)) % 4 == 0 else {'f_range': tuple(o['f_range'])}))
+    if o['fs'] == 64:
+        try:      # an unrelated earlier analysis in the same process: the SAME band at another sampling rate
+            compute_features(np.array(sig), 32, o['f_range'], **kw)
+        except Exception:      # noqa
+            pass
     base = compute_features(np.array(sig), o['fs'], o['f_range'], **kw)
     nev = 1
     for a in (SCALES_T if FULL[0] else SCALES):
@@ -118,6 +127,29 @@ def evaluate(case):
     return OK(outcome=table_hash(base), nontrivial=nt, evals=nev)
 
 
+def eval_after_other_rate(case):
+    """Rate covariance AFTER an unrelated analysis of the same band at an 8 x lower sampling rate in the same process, for every
+    start offset of one period (every phase of the rhythm at the recording edges)."""
+    from bycycle.features import compute_features
+    k, centre = case
+    sig = S.long_signal('@E')[k:k + 3000]
+    kw = {'center_extrema': centre, 'threshold_kwargs': dict(S.T0)}
+    try:
+        compute_features(sig.copy(), 62.5, (8, 12), **kw)
+    except Exception:      # noqa
+        pass
+    base = compute_features(sig.copy(), 500, (8, 12), **kw)
+    nev = 1
+    for c in (2, .5):
+        d = compute_features(sig.copy(), 500 * c, (8 * c, 12 * c), **kw)
+        nev += 1
+        dd = diff_tables(d, base, exact=True)
+        if dd:
+            return VIOL({'kind': 'rate', 'factor': c, 'centre': centre, 'after': 'same band at fs/8'},
+                        'after an analysis of the same band at fs = 62.5 Hz, multiplying fs and f_range by %g changes the table: %s' % (c, dd), evals=nev)
+    return OK(outcome=(k, centre, table_hash(base)), nontrivial=True, evals=nev)
+
+
 def eval_tiny(case):
     """Cyclepoint level, filter-sensitive inputs: every signal in {-1,0,1}^N under a 9-tap band-pass (fs=8, band 1-3 Hz,
     1 cycle); the SAME option object is reused for the re-rated and re-scaled calls."""
@@ -163,6 +195,8 @@ def spaces(tier, seed):
         out.append(ProductSpace('W(3,5)xopts', S.word_dims(S.alphabet(3), 5) + [[OPTS_Q[5], OPTS_Q[8], OPTS_Q[9]]], evaluate,
                                 bounds={'letters': S.alphabet(3), 'scales': SCALES, 'rates': RATES},
                                 describe='boundary / band deviations on the 3-letter alphabet'))
+    out.append(ProductSpace('after-other-rate-x-offsets', [list(range(50)), ['peak', 'trough']], eval_after_other_rate,
+                            describe='3000-sample excerpts at each of 50 start offsets: rate covariance after an analysis of the same band at an 8 x lower rate'))
     from bcmc.explore import ListSpace
     out.append(ListSpace('long-recordings', S.long_cases(['@B', '@E'], [(), ('amp',)]) + S.long_cases(['@C'], [('trough',)]), evaluate,
                          describe='long real-valued recordings (fs 1000 band 13-30, fs 500 band 8-12, fs 1017.25) x scale and rate factors'))
